@@ -34,6 +34,14 @@ TMPDIR and ``tempfile.tempdir``, ``cap/`` for the captures) and restores the pro
 state when closed.  The names of bin/ and tmp/ (blanks, quotes, non-ASCII, leading
 dash), the way the temporary directory is announced and further PATH directories are
 options of the constructor; programs can be installed and removed while it is open.
+
+A shape with a ``'chan'`` entry (see ``render_plan``) describes what the program does on
+its *other* channels and how the bytes of the answer are laid out: text on standard
+error before / between / after the pieces of standard output, chatter on the standard
+output of a minisat-style solver, CRLF line ends, separators inside the 'v' lines,
+standard output delivered in several writes with pauses of a few milliseconds, text
+printed when asked for ``--help``.  Such a script plays files prepared by the harness
+(``cat``), so any byte can be sent.
 """
 import os
 import random
@@ -204,13 +212,34 @@ def _chunks(lits, cuts):
     return out
 
 
+# -- layout options of a shape with a 'chan' entry -------------------------------------
+VSEPS = [' ', '  ', '\t', ' \t ']          # between two literals of a 'v' line
+VLEADS = [' ', '\t', '   ']                # between the 'v' and the first literal
+VTRAILS = ['', ' ', '\t', '  ']            # after the last token of a 'v' line
+VSPLITS = ('cuts', 'each', 'one')          # 'v' lines cut at shape['cuts'] / one literal per line / a single line
+MORE_FILLERS = [
+    ['c ' + 'y' * 30000],                                  # a very long comment line
+    ['c\tindented\tcomment', 'c'],
+    ['c', 'c', 'c', ''],
+    ['   ', '\t'],                                         # blank lines made of blanks
+    ['c s SATISFIABLE v 1 2 0', 'c s UNSATISFIABLE'],
+    ['c v', 'c 0', 'csv'],
+]
+
+
+def _pick(pool, i):
+    return pool[int(i) % len(pool)]
+
+
 def render_stdout(verdict, model, shape):
     """Lines printed on stdout by a solver of the DIMACS output convention.
     Returns (lines, number of 'v' lines that carry literals)."""
     fill = list(shape.get('fill') or [0])
+    chan = shape.get('chan') or {}
+    pool = FILLERS + MORE_FILLERS if chan else FILLERS
 
     def filler(i):
-        return list(FILLERS[fill[i % len(fill)] % len(FILLERS)])
+        return list(pool[fill[i % len(fill)] % len(pool)])
 
     status = shape['status']
     if status == 'nosline':
@@ -222,16 +251,26 @@ def render_stdout(verdict, model, shape):
     if not verdict:
         return filler(0) + ['s UNSATISFIABLE'] + filler(1), 0
     lits = ordered_model(model, shape.get('order', 0))
-    chunks = _chunks(lits, shape.get('cuts') or [])
-    vl = ['v ' + ' '.join(str(l) for l in ch) for ch in chunks]
+    split = chan.get('vsplit', 'cuts')
+    if split == 'each':
+        chunks = [[l] for l in lits]
+    elif split == 'one':
+        chunks = [lits] if lits else []
+    else:
+        chunks = _chunks(lits, shape.get('cuts') or [])
+    sep = _pick(VSEPS, chan.get('vsep', 0))
+    lead = _pick(VLEADS, chan.get('vlead', 0))
+    trail = _pick(VTRAILS, chan.get('vtrail', 0))
+    vl = ['v' + lead + sep.join(str(l) for l in ch) for ch in chunks]
     zero = shape.get('zero', 'same')
     if zero == 'same':
         if vl:
-            vl[-1] += ' 0'
+            vl[-1] += sep + '0'
         else:
-            vl = ['v 0']
+            vl = ['v' + lead + '0']
     elif zero == 'own':
-        vl.append('v 0')
+        vl.append('v' + lead + '0')
+    vl = [l + trail for l in vl]
     spos = shape.get('s_pos', 'before')
     k = {'before': 0, 'after': len(vl), 'middle': (len(vl) + 1) // 2}[spos]
     core = vl[:k] + ['s SATISFIABLE'] + vl[k:]
@@ -258,7 +297,9 @@ def render_minisat(verdict, model, shape, n):
     toks = [str(l) for l in lits]
     if shape.get('zero', 'same') != 'none':
         toks.append('0')
-    return stats + ['SATISFIABLE'], 'SAT\n' + ' '.join(toks) + '\n'
+    chan = shape.get('chan') or {}
+    sep = _pick(VSEPS, chan.get('vsep', 0))
+    return stats + ['SATISFIABLE'], 'SAT\n' + sep.join(toks) + _pick(VTRAILS, chan.get('vtrail', 0)) + '\n'
 
 
 def _q(s):
@@ -323,7 +364,294 @@ def script_text(behaviour, capdir, verdict, model, shape, n):
 
 
 # ---------------------------------------------------------------------------
+# the other channels: what a shape with a 'chan' entry makes the program do
+
+# (kind, bytes of one line without its line end) - text a program may write on standard
+# error (or, minisat style, among the statistics on standard output)
+ERR_POOL = [
+    ('version', b'version 1.0 of the solver, reading from <stdin>'),
+    ('version', b'version'),
+    ('statistics', b'statistics: 12 conflicts, 3 restarts'),
+    ('statistics', b'statistics'),
+    ('s-line', b's 0.01 seconds elapsed'),
+    ('s-line', b's UNKNOWN yet'),
+    ('s-line', b's'),
+    ('v-line', b'v 1.2.3'),
+    ('v-line', b'v 7 -3 0'),
+    ('v-line', b'v'),
+    ('c-line', b'c reading DIMACS file from standard input'),
+    ('c-line', b'c'),
+    ('single-word', b'solving'),
+    ('single-word', b'verbose'),
+    ('single-word', b'WARNING'),
+    ('single-word', b'sat'),
+    ('empty', b''),
+    ('empty', b'  \t'),
+    ('long', b'c ' + b'x' * 20000),
+    ('long', b'statistics ' + b'0123456789 ' * 1800),
+    ('long', b'v' + b'erbose' * 3000),
+    ('non-ascii', 'c temps écoulé : 0,0 s — terminé'.encode('utf-8')),
+    ('non-ascii', 'Warnung: Datei geändert'.encode('latin-1')),
+    ('non-ascii', b'\xff\xfe\x00binary \x80 junk\x1b[0m'),
+    ('non-ascii', 's ✓ v ✗'.encode('utf-8')),
+    ('cr', b'warning: option ignored\r'),
+    ('plain', b'WARNING: for repeatability, setting FPU to use double precision'),
+    ('plain', b'[solver] limit on memory not set'),
+]
+ERR_KINDS = sorted(set(k for k, _ in ERR_POOL))
+# the ones that can be mixed with the statistics a minisat-style program prints on its
+# standard output (that text is not the answer: the result file is)
+NOISE_POOL = [i for i, (k, b) in enumerate(ERR_POOL) if k != 'non-ascii']
+NOISE_POOL_ANY = list(range(len(ERR_POOL)))
+MAX_ERR_BYTES = 48000        # below the capacity of a pipe: nothing can block even if nobody reads
+DELAYS_MS = (0, 1, 2, 3)
+
+
+def err_indices(kind):
+    return [i for i, (k, _) in enumerate(ERR_POOL) if k == kind]
+
+
+def err_lines(indices, budget=None):
+    """The pool lines of the indices; lines that would take the total beyond `budget`
+    bytes are left out.  Returns (list of bytes, kinds)."""
+    out, kinds = [], []
+    left = MAX_ERR_BYTES if budget is None else budget
+    for i in indices or []:
+        k, b = ERR_POOL[int(i) % len(ERR_POOL)]
+        if len(b) + 2 > left:
+            continue
+        left -= len(b) + 2
+        out.append(b)
+        kinds.append(k)
+    return out, kinds
+
+
+def _join(lines, eol, final=True):
+    if not lines:
+        return b''
+    return eol.join(lines) + (eol if final else b'')
+
+
+def render_plan(behaviour, verdict, model, shape, n):
+    """What a program with shape['chan'] does, as a list of actions
+
+        ('out', bytes) / ('err', bytes)   write on standard output / standard error
+        ('sleep', ms)                     pause
+        ('read',)                         take the formula (file argument or standard input)
+        ('result', bytes)                 write the result file (second file argument), if one was given
+
+    and a summary dict for labels and messages.  chan keys (all optional):
+
+      err_pre / err_mid / err_post  indices into ERR_POOL: lines for standard error before the first byte of
+                    standard output, between its pieces, after the last one
+      err_eol       'lf' | 'crlf'; err_open: True when the last stderr line has no line end
+      noise         indices into ERR_POOL: lines mixed into the standard output of a *minisat* behaviour
+      eol           'lf' | 'crlf' for standard output and the result file; no_final_eol: the last line of
+                    standard output has no line end
+      vsplit / vsep / vlead / vtrail   layout of the 'v' lines (see render_stdout)
+      chunks        per-mille positions where standard output is cut into separate writes (a cut may fall
+                    inside a line); delays: ms of pause after each write (cyclic, values of DELAYS_MS)
+      early         the program prints its first stderr block (1) and also its first piece of standard
+                    output (2) before it reads the formula
+      res_first     the result file is written before standard output instead of after it
+      help          indices into ERR_POOL printed (stdout and stderr) when the program is asked for --help
+    """
+    chan = shape.get('chan') or {}
+    eol = b'\r\n' if chan.get('eol') == 'crlf' else b'\n'
+    eeol = b'\r\n' if chan.get('err_eol') == 'crlf' else b'\n'
+    res = None
+    if behaviour == 'minisat':
+        lines, res = render_minisat(verdict, model, shape, n)
+        noise, nkinds = err_lines(chan.get('noise'), 30000)
+        # chatter among the statistics: nothing of this is the answer
+        text = [l.encode('ascii') for l in lines]
+        k = 0
+        for i, b in enumerate(noise):
+            k = (k + 1 + i) % (len(text) + 1)
+            text.insert(k, b)
+        stdout = _join(text, eol)
+    else:
+        lines, _ = render_stdout(verdict, model, shape)
+        nkinds = []
+        stdout = _join([l.encode('ascii') for l in lines], eol, not chan.get('no_final_eol'))
+        if behaviour == 'poly':
+            _, res = render_minisat(verdict, model, shape, n)
+    if res is not None:
+        res = res.encode('ascii').replace(b'\n', eol)
+    budget = MAX_ERR_BYTES
+    pre, kpre = err_lines(chan.get('err_pre'), budget)
+    budget -= sum(len(b) + 2 for b in pre)
+    mid, kmid = err_lines(chan.get('err_mid'), budget)
+    budget -= sum(len(b) + 2 for b in mid)
+    post, kpost = err_lines(chan.get('err_post'), budget)
+    # pieces of standard output
+    cuts = sorted(set(int(c) % 1001 * len(stdout) // 1000 for c in chan.get('chunks') or []))
+    cuts = [c for c in cuts if 0 < c < len(stdout)]
+    if mid and not cuts and len(stdout) >= 2:
+        cuts = [len(stdout) // 2]
+    pieces = [stdout[a:b] for a, b in zip([0] + cuts, cuts + [len(stdout)])]
+    inside_line = any(stdout[c - 1:c] != b'\n' for c in cuts)
+    delays = [int(d) for d in chan.get('delays') or [0]]
+    if any(d not in DELAYS_MS for d in delays):
+        raise ValueError("delay out of range: {}".format(delays))
+    actions = []
+    early = int(chan.get('early', 0))
+    open_end = bool(chan.get('err_open'))
+    # the lines of err_mid go round the gaps between the pieces
+    gaps = len(pieces) - 1
+    midblocks = [[] for _ in range(gaps)]
+    for i, b in enumerate(mid):
+        if gaps:
+            midblocks[i % gaps].append(b)
+    last_err = 'post' if post else ('mid' if any(midblocks) else 'pre')
+
+    def err(block, is_last):
+        if block:
+            actions.append(('err', _join(block, eeol, not (is_last and open_end))))
+
+    if early >= 1:
+        err(pre, last_err == 'pre')
+        if early >= 2 and pieces:
+            actions.append(('out', pieces[0]))
+    actions.append(('read',))
+    if res is not None and chan.get('res_first'):
+        actions.append(('result', res))
+    if early < 1:
+        err(pre, last_err == 'pre')
+    for i, piece in enumerate(pieces):
+        if not (i == 0 and early >= 2):
+            actions.append(('out', piece))
+        if i < gaps:
+            d = delays[i % len(delays)]
+            if d:
+                actions.append(('sleep', d))
+            err(midblocks[i], last_err == 'mid' and not any(midblocks[i + 1:]))
+    if res is not None and not chan.get('res_first'):
+        actions.append(('result', res))
+    err(post, True)
+    hlp, _ = err_lines(chan.get('help'), 20000)
+    summary = {
+        'err_kinds': {'pre': kpre, 'mid': kmid if gaps else [], 'post': kpost},
+        'noise_kinds': nkinds,
+        'pieces': len(pieces),
+        'inside_line': inside_line,
+        'delays': sorted(set(d for d in (delays[i % len(delays)] for i in range(gaps)) if d)),
+        'stdout_bytes': len(stdout),
+        'err_bytes': sum(len(a[1]) for a in actions if a[0] == 'err'),
+        'help': bool(hlp),
+        'stdout': stdout,
+        'result': res,
+    }
+    return actions, hlp, summary
+
+
+def describe_channels(behaviour, verdict, model, shape, n, limit=70):
+    """One line of text about the plan (for messages)."""
+    actions, hlp, summary = render_plan(behaviour, verdict, model, shape, n)
+
+    def short(b):
+        return repr(b if len(b) <= limit else b[:limit] + b'...(%d bytes)' % len(b))
+
+    parts = []
+    for a in actions:
+        if a[0] == 'read':
+            parts.append('reads the formula')
+        elif a[0] == 'sleep':
+            parts.append('waits {} ms'.format(a[1]))
+        elif a[0] == 'result':
+            parts.append('writes the result file ' + short(a[1]))
+        else:
+            parts.append('{} {}'.format({'out': 'stdout', 'err': 'stderr'}[a[0]], short(a[1])))
+    if hlp:
+        parts.append('(--help prints {} lines on both channels)'.format(len(hlp)))
+    return '; '.join(parts)
+
+
+def plan_script_text(behaviour, capdir, datadir, verdict, model, shape, n):
+    """(sh source, {file name: bytes}) of a fake solver that plays render_plan()."""
+    actions, hlp, _ = render_plan(behaviour, verdict, model, shape, n)
+    status = shape['status']
+    if status == 'crash':
+        ending = {'exit1': 'exit 1', 'exit127': 'exit 127', 'kill': 'kill -9 $$'}[shape.get('crash', 'exit1')]
+    elif status == 'answer' and shape.get('exit', 'std') == 'std':
+        ending = 'exit 10' if verdict else 'exit 20'
+    else:
+        ending = 'exit 0'
+    files = {}
+    if hlp:
+        files['help'] = _join(hlp, b'\n')
+        on_help = '{cat} "$d/help"; {cat} "$d/help" >&2; exit 0'.format(cat=_CAT)
+    else:
+        on_help = 'exit 0'
+    head = [
+        '#!' + _SH,
+        'me=${0##*/}',
+        'cap=' + _q(capdir),
+        'd=' + _q(datadir),
+        'for a in "$@"; do case "$a" in --help|-h|-help|--version|-version|-V) ' + on_help + ' ;; esac; done',
+        'in=; out=',
+        ': > "$cap/$me.args"',
+        'for a in "$@"; do',
+        '  printf \'%s\\n\' "$a" >> "$cap/$me.args"',
+        '  case "$a" in',
+        '    -*) ;;',
+        '    *) if [ -z "$in" ]; then in=$a; elif [ -z "$out" ]; then out=$a; fi ;;',
+        '  esac',
+        'done',
+        'printf \'%s\\n\' "$me" >> "$cap/calls"',
+    ]
+    if behaviour == 'filereq':
+        # the usage error comes before anything else
+        head.append('if [ -z "$in" ]; then echo "usage: $me [options] FILE"; exit 1; fi')
+        read = ['{cat} "$in" > "$cap/$me.in" || exit 3'.format(cat=_CAT)]
+    elif behaviour in ('stdio', 'poly', 'minisat'):
+        read = ['if [ -n "$in" ]; then {cat} "$in" > "$cap/$me.in" || exit 3; '
+                'else {cat} > "$cap/$me.in"; fi'.format(cat=_CAT)]
+    else:
+        raise ValueError(behaviour)
+    body = []
+    for k, a in enumerate(actions):
+        if a[0] == 'read':
+            body += read
+        elif a[0] == 'sleep':
+            body.append('sleep 0.00{}'.format(int(a[1])))
+        else:
+            name = '{}{:02d}'.format(a[0][0], k)
+            files[name] = a[1]
+            if a[0] == 'out':
+                body.append('{cat} "$d/{f}"'.format(cat=_CAT, f=name))
+            elif a[0] == 'err':
+                body.append('{cat} "$d/{f}" >&2'.format(cat=_CAT, f=name))
+            else:
+                body.append('if [ -n "$out" ]; then {cat} "$d/{f}" > "$out"; fi'.format(cat=_CAT, f=name))
+    return '\n'.join(head + body + [ending]) + '\n', files
+
+
+# ---------------------------------------------------------------------------
 # the per-case sandbox
+
+class _Fd2:
+    def __init__(self, path):
+        self.path = path
+        self.saved = None
+
+    def __enter__(self):
+        if self.path is not None:
+            fd = os.open(self.path, os.O_WRONLY | os.O_CREAT | os.O_APPEND, 0o600)
+            try:
+                self.saved = os.dup(2)
+                os.dup2(fd, 2)
+            finally:
+                os.close(fd)
+        return self
+
+    def __exit__(self, *exc):
+        if self.saved is not None:
+            os.dup2(self.saved, 2)
+            os.close(self.saved)
+            self.saved = None
+        return False
+
 
 class Sandbox:
     """Scratch directory + process state for one case.  Use as a context manager."""
@@ -331,7 +659,7 @@ class Sandbox:
     TMP_VIA = ('both', 'tempdir', 'TMPDIR', 'TEMP')
     _ENV_KEYS = ('PATH', 'TMPDIR', 'TEMP', 'TMP')
 
-    def __init__(self, bin_path=('bin',), tmp_path=('tmp',), tmp_via='both', extra_bins=0):
+    def __init__(self, bin_path=('bin',), tmp_path=('tmp',), tmp_via='both', extra_bins=0, capture_stderr=False):
         """bin_path / tmp_path: path components (below the scratch root) of the first
         PATH entry and of the directory for temporary files; they may contain blanks,
         quotes, non-ASCII characters, a leading dash (no '/', no ':' , no NUL/newline).
@@ -339,8 +667,12 @@ class Sandbox:
         (TMPDIR and tempfile.tempdir), 'tempdir' (tempfile.tempdir only), 'TMPDIR'
         (environment only, tempfile.tempdir reset so that it is looked up again),
         'TEMP' (environment variable TEMP, TMPDIR unset).
-        extra_bins: number of further (plain) directories put on PATH after bin/."""
+        extra_bins: number of further (plain) directories put on PATH after bin/.
+        capture_stderr: quiet_stderr() sends what is written on file descriptor 2 (by this
+        process and by the programs it starts) to the file self.errlog."""
         self.root = None
+        self.errlog = None
+        self._capture_stderr = bool(capture_stderr)
         self._saved = None
         for comp in tuple(bin_path) + tuple(tmp_path):
             if not comp or comp in ('.', '..') or any(ch in comp for ch in '/\0\n'):
@@ -380,6 +712,8 @@ class Sandbox:
                 os.environ['TEMP'] = self.tmp
                 tempfile.tempdir = None
             self._scripts = {}
+            if self._capture_stderr:
+                self.errlog = os.path.join(self.root, 'stderr.log')
         except BaseException:
             self.__exit__(None, None, None)
             raise
@@ -410,14 +744,23 @@ class Sandbox:
             src = self._scripts.get(key)
             if src is None:
                 src = os.path.join(self.root, 'fake-' + key + '.sh')
+                if shape.get('chan'):
+                    datadir = os.path.join(self.root, 'fake-' + key + '.d')
+                    text, files = plan_script_text(behaviour, self.cap, datadir, verdict, model, shape, n)
+                    os.mkdir(datadir)
+                    for fn, data in files.items():
+                        with open(os.path.join(datadir, fn), 'wb') as f:
+                            f.write(data)
+                else:
+                    text = script_text(behaviour, self.cap, verdict, model, shape, n)
                 with open(src, 'w') as f:
-                    f.write(script_text(behaviour, self.cap, verdict, model, shape, n))
+                    f.write(text)
                 os.chmod(src, 0o755)
                 self._scripts[key] = src
             os.symlink(src, dest)
         elif state == 'noexec':
             with open(dest, 'w') as f:
-                f.write(script_text(behaviour, self.cap, verdict, model, shape, n))
+                f.write(script_text(behaviour, self.cap, verdict, model, dict(shape, chan=None), n))
             os.chmod(dest, 0o644)
         elif state == 'badformat':
             with open(dest, 'wb') as f:
@@ -436,6 +779,18 @@ class Sandbox:
         return True
 
     # -- observing
+    def quiet_stderr(self):
+        """Context manager: while it is open file descriptor 2 is the file self.errlog
+        (no-op without capture_stderr)."""
+        return _Fd2(self.errlog)
+
+    def stderr_seen(self):
+        """The bytes that went to file descriptor 2 inside quiet_stderr() so far."""
+        if self.errlog is None or not os.path.exists(self.errlog):
+            return b''
+        with open(self.errlog, 'rb') as f:
+            return f.read()
+
     def collect(self):
         """Invocations since the last collect: list of dicts
         {name, args, input}; the capture directory is emptied."""
